@@ -109,7 +109,7 @@ def expr_cases(draw, max_depth=5):
     surface = draw(st.sampled_from(["parse", "parse", "parse", "model", "rule", "growth"]))
     inject = draw(st.sampled_from([None] * 6 + ["unknown", "unknown", "unsupported"]))
     case = {"kind": "expr", "species": species, "params": params, "tree": tree, "style": style, "points": points,
-            "surface": surface, "inject": inject}
+            "surface": surface, "inject": inject, "rule_via_parameter": draw(st.booleans())}
     if inject == "unknown":
         case["unknown"] = draw(st.sampled_from(UNKNOWN_NAMES))
     if inject == "unsupported":
@@ -315,6 +315,13 @@ def check(case):
                 M = Model(species=species + ["Zout"], parameters=[(p, 1.0) for p in params],
                           reactions=[([], ["Zout"], "general", {"rate": text})],
                           initial_condition_dict={s: 0.0 for s in species + ["Zout"]})
+            elif surface == "rule" and case.get("rule_via_parameter"):
+                # the expression is assigned to a parameter, which the next rule copies into the observed species
+                M = Model(species=species + ["Zout"], parameters=[(p, 1.0) for p in params] + [("Pzout", 0.0)],
+                          rules=[("assignment", {"equation": "Pzout = " + text}),
+                                 ("assignment", {"equation": "Zout = Pzout"})],
+                          initial_condition_dict={s: 0.0 for s in species + ["Zout"]})
+                res.label("rule_assigning_a_parameter")
             elif surface == "rule":
                 M = Model(species=species + ["Zout"], parameters=[(p, 1.0) for p in params],
                           rules=[("assignment", {"equation": "Zout = " + text})],
